@@ -982,7 +982,7 @@ class C10(Property):
     # ---- the text inside the class-specific qualifiers (ASV/Model/SerialQual.lean)
     FORMATS = ["{} ({}) {}: {}", "{} ({}) {}", "{} (E-value: {}, bitscore: {}, seeds: {}, tool: {})",
                "Domain: {} ({:d}-{:d}). E-value: {}. Score: {}. Matches aSDomain: {}", "type: {}",
-               "{}: {}", "{} {}", "{}({:d})", "{:d}-{:d}", "a {} b", "{}.{}. {}", "{}"]
+               "{} (Da): {:.3f}", "{}: {}", "{} {}", "{}({:d})", "{:d}-{:d}", "a {} b", "{}.{}. {}", "{}"]
     FUNCTIONS = ["other", "biosynthetic", "biosynthetic-additional", "transport", "regulatory", "resistance"]
 
     def qualtext_cases(self, rng: random.Random, deep: bool) -> Iterator[Dict[str, Any]]:
